@@ -30,6 +30,8 @@ def parseCred : String → Option Cred
   | "othersecret" => some (.secret .B)
   | "ownsecret" => some (.secret .A)
   | "wrongsecret" => some .wrongClusterSecret
+  | "prefixsecret" => some .wrongClusterSecret
+  | "longersecret" => some .wrongClusterSecret
   | "rightsecret" => some .clusterSecret
   | _ => none
 
